@@ -34,7 +34,9 @@ CFG = Cfg(max_depth=3, theories={"bool", "int", "real", "bv", "arr", "uf", "quan
           quant_types=[BOOL, BV(1), INT], share=35, nsyms=2)
 
 FAIL_KINDS = ["construct", "substitute", "cnf-quantified", "qelim-nonbool", "size-measure", "get-symbol", "hr-parse",
-              "smtlib-parse", "array-nonconst-key", "fi-free-vars", "custom-operator", "model-text", "simplify-custom-walker"]
+              "smtlib-parse", "array-nonconst-key", "fi-free-vars", "custom-operator", "model-text", "malformed-declaration",
+              "with-block-raises", "simplify-custom-walker"]
+DECL_NAME = "c15 declared name"
 
 
 def _register_custom_operator():
@@ -149,6 +151,13 @@ def do_fail(world, fail):
                     world.parser.parse_model(StringIO(text))
                 else:
                     world.parser.get_assignment_list(StringIO(text))
+            elif kind == "malformed-declaration":
+                world.parser.get_script(StringIO(fail[1]))
+            elif kind == "with-block-raises":
+                # the exception leaves a `with Environment():` block (the failing call is what the block does)
+                inner = Environment()
+                with inner:
+                    inner.formula_manager.Plus(inner.formula_manager.TRUE(), inner.formula_manager.Int(1))
             elif kind == "fi-free-vars":
                 from pysmt.substituter import FunctionInterpretation
                 _, params, body = fail
@@ -243,6 +252,14 @@ def gen_fail(g, probe, rel):
             ("model-text", "answer", "(((let ((|zq!| 1)) (+ |zq!| true)) 1))"),
             ("model-text", "answer", "((i0 1) (i1"),
         ])
+    if kind == "malformed-declaration":
+        # the declaring command itself is malformed: the name it would have declared must stay undeclared
+        return ("malformed-declaration", g.choice([
+            "(declare-fun |%s| () Int Real)", "(declare-const |%s| Int Real)", "(declare-fun |%s| (Int) Bool Bool)",
+            "(declare-fun |%s| () Int", "(declare-const |%s| Int (", "(declare-fun |%s| () (Array Int))",
+            "(declare-fun |%s| (Int Undeclared) Int)", "(declare-const |%s| Int) (declare-const |%s| Real)"][:7]) % DECL_NAME)
+    if kind == "with-block-raises":
+        return ("with-block-raises",)
     if kind == "custom-operator":
         bf = f if t == BOOL else (probe if reftype_or_none(probe) == BOOL else const(BOOL, True))
         return ("custom-operator", g.choice(CUSTOM_SERVICES), bf)
@@ -262,6 +279,23 @@ def parse_probe(world, text):
 
 
 def check_history(run, probe, history, probes, ptexts):
+    import pysmt.environment as pe
+    env0 = pe.get_env()
+    try:
+        _check_history(run, probe, history, probes, ptexts)
+    finally:
+        # the global environment stack is what it was (every `with` block of the history has been left)
+        if pe.get_env() is not env0:
+            run.fail({"subcheck": "trace:environment-stack"}, {"probe": probe, "history": history, "probes": [], "texts": []},
+                     "after the history (failing calls: %s) get_env() is no longer the environment that was current before it" % (
+                         [h[1][0] for h in history if h[0] == "fail"],))
+            for _ in range(100):
+                if pe.get_env() is env0 or len(pe.ENVIRONMENTS_STACK) <= 1:
+                    break
+                pe.pop_env()
+
+
+def _check_history(run, probe, history, probes, ptexts):
     A, Bw = World(), World()
     nfail = 0
     kinds = []
@@ -301,6 +335,20 @@ def check_history(run, probe, history, probes, ptexts):
                      dict(case, failing=call),
                      "%s on %s gives %r after failing calls %s, %r on the twin that never saw them" % (
                          call[0], show(call[1], 200), _brief(A.env, a), sorted(set(kinds)), _brief(Bw.env, b)))
+    # a name that only malformed declarations mentioned is still undeclared
+    outs = []
+    for W in (A, Bw):
+        o = []
+        for fn in (lambda m: m.get_symbol(DECL_NAME), lambda m: m.Symbol(DECL_NAME, W.env.type_manager.BVType(3))):
+            try:
+                o.append("ok " + str(fn(W.env.formula_manager).symbol_type()))
+            except Exception as e:
+                o.append("raised " + type(e).__name__)
+        outs.append(o)
+    run.cls("probe:name-of-malformed-declaration")
+    if outs[0] != outs[1]:
+        run.fail({"subcheck": "trace:result-differs", "service": "get_symbol", "after": sorted(set(kinds))[0]}, case,
+                 "get_symbol / Symbol(%r, BV3): %s after failing calls %s, %s on the twin" % (DECL_NAME, outs[0], sorted(set(kinds)), outs[1]))
     # get-model / get-value replies read by the long-lived parser (before get_script, which resets the parser)
     for which, text in (("parse_model", "((define-fun |pm b| () Int |zq!|))"), ("parse_model", "((define-fun |pm c| () Int 7))"),
                         ("answer", "((|zq!| 1))"), ("parse_model", "((define-fun |pm g| ((a Int)) Int (+ a 1)))")):
